@@ -131,6 +131,79 @@ def rule_dev(ctx):
     ctx.exhaustive_domains.append("21 classes x device in {A,none} x 3 senders x 2^2 accepts outcomes")
 
 
+def rule_hist(ctx):
+    """Two consecutive client messages with different senders on the same router: routing of the second must not
+    depend on the first (a per-name route cache that bakes the first sender's exclusion in breaks exactly this)."""
+    p = ctx.p
+    f = router_cls(p).find_method("process_message")
+    gp = p.cls("indi.message.get_properties.GetProperties")
+    nt = p.cls("indi.message.news.NewTextVector")
+    senders = ("device0", "device1", "client0", "none")
+    n = 0
+    bad = False
+    for ci in (gp, nt):
+        tag = lower_first(ci.name)
+        for s1 in senders:
+            for s2 in senders:
+                if s1 == s2:
+                    continue
+                for between in ("nothing", "register-client"):
+                    n += 1
+
+                    def wf():
+                        return World(p, 2, 2, {})
+
+                    def af(w):
+                        pick = lambda s: {"client0": w.clients[0], "device0": w.devices[0], "device1": w.devices[1], "none": Const(None)}[s]
+                        m1 = message_obj(p, ci, device="A")
+                        m2 = message_obj(p, ci, device="A")
+                        m2.label = m2.label + "#2"
+                        w.msgs = (m1, m2)
+                        return [([m1, pick(s1)], {}), ([m2, pick(s2)], {})]
+
+                    _, paths = run_router(p, wf, "process_message", af)
+                    ctx.paths_enumerated += len(paths)
+                    for pa in paths:
+                        row = f"{tag}: first from {s1}, then from {s2}"
+                        if pa.outcome != "return":
+                            ctx.violated("C04.HIST", f.short, f"[{row}] raises", fi=f, text=f"hist-raise:{tag}", witness=row)
+                            bad = True
+                            continue
+                        mark = pa.interp.call_marks[1]
+                        m2 = pa.world.msgs[1]
+                        acc1, acc2 = {}, {}
+                        for e in pa.assumes():
+                            c_ = e.data["cond"]
+                            if isinstance(c_, Term) and is_call(c_, method="accepts") and isinstance(c_.args[0], Fn):
+                                (acc2 if e.idx >= mark else acc1)[show(c_.args[0].self_val)] = e.data["truth"]
+                        got = {}
+                        for recv, arg, ev in deliveries(pa, "message_from_client"):
+                            if ev.idx >= mark:
+                                got.setdefault(recv, []).append(arg)
+                        for i in range(2):
+                            d = f"device{i}"
+                            accepts = acc2.get(d, acc1.get(d))
+                            nrecv = len(got.get(d, []))
+                            if d == s2:
+                                exp = 0
+                            elif accepts is None:
+                                ctx.violated("C04.HIST", f.short, f"[{row}]: {d} was never asked whether it accepts the device name (second message delivered {nrecv} times)", fi=f, text=f"hist-unasked:{nrecv}", witness=row)
+                                bad = True
+                                continue
+                            else:
+                                exp = 1 if accepts else 0
+                            if nrecv != exp:
+                                why = "it is the sender of the second message" if d == s2 else f"it {'accepts' if accepts else 'does not accept'} the name"
+                                ctx.violated("C04.HIST", f.short, f"[{row}]: the second message reaches {d} {nrecv} times, expected {exp} ({why}): routing of a message depends on who sent an earlier one", fi=f, text=f"hist:{'sender' if d == s2 else 'other'}:{nrecv}:{exp}", witness=row)
+                                bad = True
+                            elif nrecv and got[d][0] is not m2:
+                                ctx.violated("C04.HIST", f.short, f"[{row}]: {d} is handed the first message again", fi=f, text="hist-wrong-message", witness=row)
+                                bad = True
+    ctx.counters["C04.HIST:two-message histories"] = n
+    if not bad:
+        ctx.holds("C04.HIST", f.short, f"{n} two-message histories (2 kinds x ordered sender pairs): routing of the second message is independent of the first", fi=f)
+
+
 def rule_acc(ctx):
     p = ctx.p
     dbase = p.cls("indi.routing.device.Device")
@@ -184,6 +257,7 @@ def rule_name(ctx):
 RULES = [
     ("C04.DIR", rule_dir, "direction flags of every message class equal the INDI direction table"),
     ("C04.DEV", rule_dev, "from-client branch: each non-sender device that accepts message.device gets the message exactly once, nobody else; no client gets device-bound messages"),
+    ("C04.HIST", rule_hist, "two-message histories with different senders: the second routing is independent of the first"),
     ("C04.ACC", rule_acc, "accepts truth table of every routing.Device implementation; abstract methods overridden"),
     ("C04.NAME", rule_name, "Driver.name is the configured name"),
 ]
